@@ -190,7 +190,9 @@ def signal_spec(draw, classes=CLASSES, nmin=0, nmax=300, dtypes=None, max_traili
                     spec[key] = dict(spec[key], k=k)
         spec["str_kind"] = draw(st.sampled_from(["built", "npstr"]))
     if draw(st.integers(0, 11)) == 0:
-        spec["sub"] = True  # an instance of a user-defined subclass of the library class (results derived from it are of that subclass)
+        # an instance of a user-defined subclass of the library class (results derived from it are of that subclass): a plain one with a method
+        # of its own, or one whose constructor spells the options as ordinary (positional-or-keyword) parameters with defaults of its own
+        spec["sub"] = draw(st.sampled_from([True, "ctor"]))
     if with_meta:
         spec["meta"] = draw(metas())
     kind = draw(st.sampled_from(list(data_kinds)))
@@ -378,7 +380,7 @@ def build(spec, data=None, chunks=None):
         return _PINNED.pop()
     cls = getattr(pb, spec["cls"])
     if spec.get("sub"):
-        cls = user_subclass(cls)
+        cls = user_subclass(cls, spec["sub"])
     x = mk_data(spec) if data is None else data
     if chunks is not None:
         import dask.array as da
@@ -394,15 +396,38 @@ def _describe(self):
     return "%d samples" % len(self)
 
 
-def user_subclass(cls):
-    """what a user of the library may well write: `class MySignal(pb.BasebandSignal): ...` with a method of their own.  The classes live in
-    this module's namespace (defined at import, below) so that instances can be pickled into worker processes."""
-    if cls not in _SUBCLASSES:
-        name = "My" + cls.__name__
-        sub = type(name, (cls,), {"__module__": __name__, "__qualname__": name, "describe": _describe})
+def _ctor_with_defaults(cls):
+    """`def __init__(self, z, /, sample_rate=<default>, start_time=None, ...)`: every option of the library constructor as an ordinary parameter
+    with a default of the user's own, handed on by keyword."""
+    import inspect
+
+    defaults = {"sample_rate": "_u.Quantity(7.0, 'Hz')", "start_time": "None", "meta": "None", "center_freq": "_u.Quantity(1.0, 'GHz')",
+                "chan_bw": "_u.Quantity(3.0, 'Hz')", "freq_align": "'center'", "pol_type": "'linear'"}
+    names = [k for k, v in inspect.signature(cls.__init__).parameters.items() if v.kind is v.KEYWORD_ONLY]
+    assert set(names) <= set(defaults), names
+    src = "def __init__(self, z, /, %s):\n    _base.__init__(self, z, %s)\n" % (", ".join("%s=%s" % (k, defaults[k]) for k in names),
+                                                                              ", ".join("%s=%s" % (k, k) for k in names))
+    import astropy.units as _u
+
+    ns = {"_u": _u, "_base": cls}
+    exec(src, ns)
+    return ns["__init__"]
+
+
+def user_subclass(cls, kind=True):
+    """what a user of the library may well write: `class MySignal(pb.BasebandSignal): ...` with a method of their own (kind True), or with a
+    constructor of their own whose options are ordinary parameters with defaults ("ctor").  The classes live in this module's namespace
+    (defined at import, below) so that instances can be pickled into worker processes."""
+    kind = "ctor" if kind == "ctor" else True
+    if (cls, kind) not in _SUBCLASSES:
+        name = ("My" if kind is True else "MyCtor") + cls.__name__
+        body = {"__module__": __name__, "__qualname__": name, "describe": _describe}
+        if kind == "ctor":
+            body["__init__"] = _ctor_with_defaults(cls)
+        sub = type(name, (cls,), body)
         globals()[name] = sub
-        _SUBCLASSES[cls] = sub
-    return _SUBCLASSES[cls]
+        _SUBCLASSES[(cls, kind)] = sub
+    return _SUBCLASSES[(cls, kind)]
 
 
 def _define_user_subclasses():
@@ -410,6 +435,7 @@ def _define_user_subclasses():
 
     for name in CLASSES:
         user_subclass(getattr(pb, name))
+        user_subclass(getattr(pb, name), "ctor")
 
 
 _define_user_subclasses()
